@@ -94,4 +94,25 @@ IndInv ==
 
 IndInit == IndInv /\ MaxViewConstraint
 Target == TypeOK /\ InvTwoBlocksAccepted /\ InvFaultNodesCount
+
+\* BEGIN-SPLIT  The step obligation is discharged per group of actions (in parallel):
+\* IndInit /\ StepX => IndInv' for every group below.  The groups together list every
+\* disjunct of the shipped Next; check_c20.sh compares the action names between
+\* BEGIN-SPLIT and END-SPLIT with the ones in the shipped definition of Next on every
+\* run and falls back to the monolithic obligation (--next=Next) if they differ.
+StepPrepare == \E r \in RM: RMSendPrepareRequest(r) \/ RMSendPrepareResponse(r)
+StepCommit == \E r \in RM: RMSendCommit(r)
+StepAccept == \E r \in RM: RMAcceptBlock(r) \/ RMFetchBlock(r)
+StepCV12 == \E r \in RM: RMSendChangeView1(r) \/ RMSendChangeView2(r)
+StepCV3 == \E r \in RM: RMSendChangeView3(r)
+StepReceiveCV == \E r \in RM: RMReceiveChangeView(r)
+StepFaults == \/ Terminating
+              \/ \E r \in RM: RMBeBad(r) \/ RMDie(r)
+                     \/ RMFaultySendCV1(r) \/ RMFaultySendCV2(r) \/ RMFaultySendCV3(r) \/ RMFaultyDoCV(r)
+                     \/ RMFaultySendCommit(r) \/ RMFaultySendPReq(r) \/ RMFaultySendPResp(r)
+\* END-SPLIT
+
+\* Non-vacuity probe, expected to be VIOLATED: Apalache must exhibit a state of IndInit
+\* in which two nodes have accepted a block (so IndInit is not empty / trivial).
+VacuityProbe == Cardinality({r \in RM: rmState[r].type = "blockAccepted"}) < 2
 =============================================================================
